@@ -3,7 +3,7 @@ import AsynqModel.Proofs.Batching4
 namespace AsynqModel.Batching
 set_option linter.unusedSimpArgs false
 
-theorem good_of_fin {s0 b0 o n r} (h : Fin s0 b0 o n r) (hn : n ≤ 1) : Good r.1 := by
+theorem good_of_fin {s0 b0 o n e0 r} (h : Fin s0 b0 o n e0 r) (hn : n ≤ 1) : Good r.1 := by
   obtain ⟨⟨a, m, hout, hall, _, _⟩, hru⟩ := h
   refine ⟨by rw [m.act]; exact m.alt, by rw [m.act]; exact m.apend, ?_, ?_⟩
   · intro i hi
@@ -20,11 +20,11 @@ theorem good_of_fin {s0 b0 o n r} (h : Fin s0 b0 o n r) (hn : n ≤ 1) : Good r.
       exact ⟨hn, fun hh => by rw [hout] at hh; cases hh⟩
     · exact m.runs b hb e
 
-theorem ext_of_fin {s0 b0 o n r} (h : Fin s0 b0 o n r) : Ext s0 r.1 := by
+theorem ext_of_fin {s0 b0 o n e0 r} (h : Fin s0 b0 o n e0 r) : Ext s0 r.1 := by
   obtain ⟨⟨a, m, _⟩, _⟩ := h; exact m.ext
 
 theorem evClause_of_evok {s0 b0 a post} (hg : Good s0) (m : Mid s0 b0 a post) (hout : (post.bout b0).isSome)
-    (ev : Ev) (h : EvOK s0 b0 a post ev) : evClause s0 post ev = none := by
+    (ev : Ev) (h : EvOK s0 b0 a post ev) : evClause true s0 post ev = none := by
   have hane := m.ane
   have hr0 : s0.runs b0 = 0 := (hg.2.2.2 b0 m.blt).2.2 m.pre0
   cases ev with
@@ -32,6 +32,7 @@ theorem evClause_of_evok {s0 b0 a post} (hg : Good s0) (m : Mid s0 b0 a post) (h
     obtain ⟨h1, h2⟩ := h
     subst h1; subst h2
     simp [evClause, hane, m.act, m.pre0, hr0]
+  | bodyEnd _ _ _ => rfl
   | createFail _ => exact absurd h id
   | announce b pend act =>
     obtain ⟨h1, h2, h3, h4⟩ := h
@@ -58,17 +59,131 @@ theorem evClause_of_evok {s0 b0 a post} (hg : Good s0) (m : Mid s0 b0 a post) (h
       · subst ho
         simp [itemRule, hkd]
 
-theorem evClause_of_fin {s0 b0 o n r} (hg : Good s0) (h : Fin s0 b0 o n r) :
-    ∀ ev ∈ r.2, evClause s0 r.1 ev = none := by
+/-- the same when no flush body runs (`cancel()`): the library gives every leftover item the batch's error -/
+theorem evClause_of_evok_cancel {s0 b0 a post} {x : Err} (hg : Good s0) (m : Mid s0 b0 a post)
+    (hout : post.bout b0 = some (.err x)) (ev : Ev) (h : EvOK s0 b0 a post ev)
+    (hlib : ∀ j o', ev = .item j o' false → o' = .err x) : evClause false s0 post ev = none := by
+  have base := evClause_of_evok hg m (by simp [hout]) ev h
+  cases ev with
+  | item i o bb =>
+    obtain ⟨h1, h2, h3, h4, h5⟩ := h
+    cases bb with
+    | true => simpa [evClause] using base
+    | false =>
+      have := hlib i o rfl
+      subst this
+      simp [evClause, h1, h2, h4, hout, itemRule]
+  | body b act => exact base
+  | bodyEnd _ _ _ => rfl
+  | createFail _ => exact base
+  | announce b pend act => exact base
+  | created i b src => exact base
+
+theorem out_of_fin {s0 b0 o n e0 r} (h : Fin s0 b0 o n e0 r) : r.1.bout b0 = some o := by
+  obtain ⟨⟨a, _, hout, _⟩, _⟩ := h; exact hout
+
+theorem evClause_of_fin {s0 b0 o n e0 r} (hg : Good s0) (h : Fin s0 b0 o n e0 r) :
+    ∀ ev ∈ r.2, evClause true s0 r.1 ev = none := by
   obtain ⟨⟨a, m, hout, _, hev, _⟩, _⟩ := h
   intro ev he
   exact evClause_of_evok hg m (by simp [hout]) ev (hev ev he)
 
-theorem ann_of_fin {s0 b0 o n r} (h : Fin s0 b0 o n r) : (r.2.filter Ev.isAnnounce).length ≤ 1 := by
-  obtain ⟨⟨a, _, _, _, _, hann⟩, _⟩ := h; exact hann
+theorem evClause_of_fin_cancel {s0 b0 x n r} (hg : Good s0) (h : Fin s0 b0 (.err x) n [] r) :
+    ∀ ev ∈ r.2, evClause false s0 r.1 ev = none := by
+  obtain ⟨⟨a, m, hout, _, hev, ⟨L, hL, _, hlib⟩, _⟩, _⟩ := h
+  intro ev he
+  refine evClause_of_evok_cancel hg m hout ev (hev ev he) ?_
+  intro j o' hj
+  subst hj
+  rw [hL] at he
+  simp only [List.nil_append, List.mem_append, List.mem_singleton] at he
+  rcases he with he | he
+  · exact hlib j o' he
+  · cases he
 
-theorem out_of_fin {s0 b0 o n r} (h : Fin s0 b0 o n r) : r.1.bout b0 = some o := by
-  obtain ⟨⟨a, _, hout, _⟩, _⟩ := h; exact hout
+/-! ### the shape of the log -/
+
+theorem filter_noann (l : List Ev) (h : ∀ ev ∈ l, ev.isAnnounce = false) : l.filter Ev.isAnnounce = [] := by
+  rw [List.filter_eq_nil_iff]; intro ev hev; simp [h ev hev]
+
+theorem plain_noann {l : List Ev} (h : ∀ ev ∈ l, ev.isPlain = true) : ∀ ev ∈ l, ev.isAnnounce = false :=
+  fun ev hev => isPlain_not_announce (h ev hev)
+
+theorem dropWhile_noann (l : List Ev) (ev : Ev) (h : ∀ x ∈ l, x.isAnnounce = false) (hev : ev.isAnnounce = true) :
+    (l ++ [ev]).dropWhile (fun x => !x.isAnnounce) = [ev] := by
+  induction l with
+  | nil => simp [List.dropWhile, hev]
+  | cons y ys ih =>
+    have hy := h y (by simp)
+    simp only [List.cons_append, List.dropWhile, hy, Bool.not_false]
+    exact ih (fun x hx => h x (by simp [hx]))
+
+/-- the log of an operation that finishes a batch: no announcement but the last event -/
+structure LogShape (b0 a : Nat) (evs : List Ev) : Prop where
+  ex : ∃ e, evs = e ++ [.announce b0 [] a] ∧ ∀ ev ∈ e, ev.isAnnounce = false
+
+theorem logShape_of_fin {s0 b0 o n e0 r} (h : Fin s0 b0 o n e0 r) (he0 : ∀ ev ∈ e0, ev.isAnnounce = false) :
+    ∃ a, Mid s0 b0 a r.1 ∧ LogShape b0 a r.2 := by
+  obtain ⟨⟨a, m, _, _, _, ⟨L, hL, hp, _⟩, _⟩, _⟩ := h
+  refine ⟨a, m, ⟨e0 ++ L, by rw [hL, List.append_assoc], ?_⟩⟩
+  intro ev hev
+  rcases List.mem_append.mp hev with hev | hev
+  · exact he0 ev hev
+  · exact isPlain_not_announce (hp ev hev)
+
+theorem ann_of_shape {b0 a evs} (h : LogShape b0 a evs) : (evs.filter Ev.isAnnounce).length ≤ 1 := by
+  obtain ⟨e, he, hn⟩ := h.ex
+  rw [he, List.filter_append, filter_noann e hn]
+  simp [List.filter, Ev.isAnnounce]
+
+theorem after_of_shape {b0 a evs} (post : St) (h : LogShape b0 a evs) : afterAnnounceOk post evs = true := by
+  obtain ⟨e, he, hn⟩ := h.ex
+  unfold afterAnnounceOk
+  rw [he, dropWhile_noann e _ hn rfl]
+  simp
+
+theorem announceCount_noann (e : List Ev) (h : ∀ ev ∈ e, ev.isAnnounce = false) (b : Nat) : announceCount e b = 0 := by
+  induction e with
+  | nil => rfl
+  | cons ev e ih =>
+    rw [announceCount_cons, ih (fun x hx => h x (by simp [hx]))]
+    have := h ev (by simp)
+    cases ev <;> simp_all [Ev.isAnnounce, announceCount]
+
+/-- every change is logged once: from the law of the log, the shape of the log, and "no other batch finishes" -/
+theorem counts_of_fin {s0 b0 a o post evs} (m : Mid s0 b0 a post) (hout : post.bout b0 = some o)
+    (hl : Law s0 post evs) (hs : LogShape b0 a evs) : CountsOk s0 post evs := by
+  refine ⟨fun i hi => ?_, fun b hb => ?_⟩
+  · obtain ⟨x, y⟩ := hl i
+    refine ⟨x, ?_⟩
+    rw [y]
+    by_cases c : s0.items.length ≤ i <;> simp [c, hi]
+  · obtain ⟨e, he, hn⟩ := hs.ex
+    rw [he, announceCount_append, announceCount_noann e hn]
+    by_cases c : b = b0
+    · subst c
+      simp [announceCount, m.pre0, hout]
+    · have c' : ¬ b0 = b := fun x => c x.symm
+      have : ¬ (s0.bout b = none ∧ (post.bout b).isSome) := by
+        intro ⟨h1, h2⟩
+        rw [m.oth b c h1] at h2; cases h2
+      simp [announceCount, c', this]
+
+theorem slot_of_mid {s0 b0 a post} (m : Mid s0 b0 a post) : slotOk s0 post (some b0) = true := by
+  have h1 := m.nb
+  have h2 := m.aeq
+  have h3 := m.act
+  unfold slotOk
+  by_cases hc : s0.active = b0
+  · have : (some b0 = some s0.active) := by rw [hc]
+    simp only [this, if_true]
+    simp [switch, hc] at h1 h2
+    simp [h1, h3, h2]
+  · have : ¬ (some b0 = some s0.active) := by
+      intro e; cases e; exact hc rfl
+    simp only [this, if_false]
+    simp [switch, hc] at h1 h2
+    simp [h1, h3, h2]
 
 /-! `self.items.clear()` of a finished batch -/
 
@@ -96,8 +211,8 @@ theorem good_clearItems {s : St} (b : Nat) (h : Good s) (hb : (s.bout b).isSome)
     · cases hi
     · exact x i hi
 
-theorem evClause_clearItems (pre post : St) (b : Nat) (ev : Ev) :
-    evClause pre (post.clearItems b) ev = evClause pre post ev := by
+theorem evClause_clearItems (br : Bool) (pre post : St) (b : Nat) (ev : Ev) :
+    evClause br pre (post.clearItems b) ev = evClause br pre post ev := by
   cases ev <;> simp only [evClause, clearItems_bout, clearItems_iout, clearItems_ibatch, clearItems_payload,
     clearItems_kind, clearItems_active, clearItems_items] <;> (try rfl)
 
@@ -112,27 +227,69 @@ theorem good_clearUnlessKept {s : St} (kp : Bool) (b : Nat) (h : Good s) (hb : (
   · exact good_clearItems b h hb
   · exact h
 
-theorem evClause_clearUnlessKept (pre post : St) (kp : Bool) (b : Nat) (ev : Ev) :
-    evClause pre (post.clearUnlessKept kp b) ev = evClause pre post ev := by
+theorem evClause_clearUnlessKept (br : Bool) (pre post : St) (kp : Bool) (b : Nat) (ev : Ev) :
+    evClause br pre (post.clearUnlessKept kp b) ev = evClause br pre post ev := by
   cases kp
-  · exact evClause_clearItems pre post b ev
+  · exact evClause_clearItems br pre post b ev
   · rfl
+
+theorem clearUnlessKept_ibatch' (s : St) (kp : Bool) (b i : Nat) : (s.clearUnlessKept kp b).ibatch i = s.ibatch i := by
+  cases kp <;> rfl
+
+theorem after_clearUnlessKept (post : St) (kp : Bool) (b : Nat) (evs : List Ev) :
+    afterAnnounceOk (post.clearUnlessKept kp b) evs = afterAnnounceOk post evs := by
+  unfold afterAnnounceOk
+  simp only [clearUnlessKept_ibatch']
+
+theorem counts_clearUnlessKept {pre post : St} (kp : Bool) (b : Nat) {evs : List Ev} (h : CountsOk pre post evs) :
+    CountsOk pre (post.clearUnlessKept kp b) evs := by
+  unfold CountsOk at *
+  simpa using h
+
+theorem slot_clearUnlessKept (pre post : St) (kp : Bool) (b : Nat) (fin : Option Nat) :
+    slotOk pre (post.clearUnlessKept kp b) fin = slotOk pre post fin := by
+  unfold slotOk; simp
+
+theorem clearUnlessKept_bitems (s : St) (kp : Bool) (b : Nat) :
+    (s.clearUnlessKept kp b).bitems b = if kp then s.bitems b else [] := by
+  cases kp <;> simp [St.clearUnlessKept, clearItems_bitems]
 
 /-! assembling `specStep` -/
 
-theorem specStep_none {pre : St} {ob : Obs} (h1 : opClause pre ob = none)
-    (h2 : ∀ ev ∈ ob.evs, evClause pre ob.post ev = none) (h3 : (ob.evs.filter Ev.isAnnounce).length ≤ 1)
-    (h4 : Ext pre ob.post) (h5 : Good ob.post) : specStep pre ob = none := by
-  unfold specStep
-  have : ob.evs.findSome? (evClause pre ob.post) = none := by
-    rw [List.findSome?_eq_none_iff]; exact h2
-  simp only [h1, this]
-  have : ¬ (List.filter Ev.isAnnounce ob.evs).length > 1 := by omega
-  simp [this, h4, h5]
+theorem firstFail_none {l : List (Bool × String)} : firstFail l = none ↔ ∀ x ∈ l, x.1 = true := by
+  induction l with
+  | nil => simp [firstFail]
+  | cons x xs ih =>
+    obtain ⟨ok, name⟩ := x
+    cases ok <;> simp [firstFail, ih]
 
-theorem specStep_noop {pre : St} {op : Op} {r : Res} (hg : Good pre)
+theorem specStep_none {rx : Bool} {pre : St} {ob : Obs} (h1 : opClause pre ob = none)
+    (hf : fateClause rx pre ob = none)
+    (h2 : ∀ ev ∈ ob.evs, evClause (fate pre ob.op).bodyRuns pre ob.post ev = none)
+    (h3 : (ob.evs.filter Ev.isAnnounce).length ≤ 1) (ha : afterAnnounceOk ob.post ob.evs = true)
+    (hc : CountsOk pre ob.post ob.evs)
+    (h4 : Ext pre ob.post) (h5 : Good ob.post) : specStep rx pre ob = none := by
+  unfold specStep
+  have : ob.evs.findSome? (evClause (fate pre ob.op).bodyRuns pre ob.post) = none := by
+    rw [List.findSome?_eq_none_iff]; exact h2
+  simp only [h1, hf, this]
+  have : ¬ (List.filter Ev.isAnnounce ob.evs).length > 1 := by omega
+  simp [this, ha, hc, h4, h5]
+
+theorem counts_noop (pre : St) : CountsOk pre pre [] := by
+  refine ⟨fun i hi => ⟨?_, ?_⟩, fun b _ => ?_⟩
+  · cases pre.iout i <;> simp [itemCount]
+  · have : ¬ pre.items.length ≤ i := by omega
+    simp [createdCount, this]
+  · cases pre.bout b <;> simp [announceCount]
+
+theorem slot_noop (pre : St) : slotOk pre pre none = true := by simp [slotOk]
+
+/-- an operation that changes nothing and logs nothing, when nothing is to be done -/
+theorem specStep_noop {rx : Bool} {pre : St} {op : Op} {r : Res} (hg : Good pre) (hq : fate pre op = .quiet)
     (h1 : opClause pre { op := op, res := r, evs := [], post := pre } = none) :
-    specStep pre { op := op, res := r, evs := [], post := pre } = none :=
-  specStep_none h1 (by simp) (by simp) (Ext.refl pre) hg
+    specStep rx pre { op := op, res := r, evs := [], post := pre } = none :=
+  specStep_none h1 (by simp [fateClause, fateChecks, firstFail, hq, slot_noop]) (by simp) (by simp) (by simp [afterAnnounceOk])
+    (counts_noop pre) (Ext.refl pre) hg
 
 end AsynqModel.Batching
